@@ -1,11 +1,13 @@
 import Driver.QuadCmd
 import Driver.QuadGenCmd
+import Driver.NormsGenCmd
 import Driver.MeshCmd
 import Driver.GMeshCmd
 import Driver.FormulaCmd
 import Driver.SLCmd
 import Driver.QuadtreeCmd
 import Driver.EstimatorCmd
+import Driver.EstimatorGenCmd
 import Driver.ParamCmd
 import Driver.EstimCmd
 import Driver.AsmCmd
@@ -30,11 +32,13 @@ def dispatch (st : St) (line : String) : St × String :=
   | [] => (st, "")
   | "q1" :: _ | "q2" :: _ | "q3" :: _ | "slo" :: _ => (st, quadCmd args)
   | "g1" :: _ | "g2" :: _ | "g3" :: _ | "gc" :: _ | "gnp" :: _ => (st, quadGenCmd args)
+  | "gslo" :: _ => (st, normsGenCmd args)
   | "fm" :: _ => (st, formulaCmd args)
   | "pb" :: _ => (st, problemsCmd args)
   | "sl" :: _ => let r := slCmd st.sl args; ({ st with sl := r.1 }, r.2)
   | "qt" :: _ => let r := qtCmd st.qt args; ({ st with qt := r.1 }, r.2)
   | "ee" :: _ => let r := eeCmd st.mesh args; ({ st with mesh := r.1 }, r.2)
+  | "gee" :: _ => (st, geeCmd st.mesh args)
   | "param" :: _ => (st, paramCmd args)
   | "est" :: _ => (st, estimCmd args)
   | "asm" :: _ => (st, asmCmd args)
